@@ -749,8 +749,8 @@ func runScenario(wr *rec.Writer, scenSeed uint64, backend string) {
 		{Label: "empty", ClientID: ""},
 		{Label: "stranger", ClientID: "stranger"},
 	}
-	nClients := r.Range(3, 5)
-	profiles := []int{1, 2, 3, 4, 5, 5, 5, 0}
+	nClients := r.Range(4, 6)
+	profiles := []int{1, 2, 3, 4, 5, 5, 5, 5}
 	rec.Shuffle(r, profiles)
 	var grants []grantTuple
 	for i := 0; i < nClients; i++ {
@@ -881,9 +881,9 @@ func runScenario(wr *rec.Writer, scenSeed uint64, backend string) {
 		}
 	}
 	// phase 3: CreateStore, then DeleteStore (stores disappear, so this comes last)
-	for _, p := range all {
+	for pi, p := range all {
 		w.tr.reset()
-		_, err := srv.CreateStore(w.ctxFor(p.id), &openfgav1.CreateStoreRequest{Name: "made-by-" + strings.ReplaceAll(p.id.Label, ":", "-")})
+		_, err := srv.CreateStore(w.ctxFor(p.id), &openfgav1.CreateStoreRequest{Name: fmt.Sprintf("made-by-%d", pi)})
 		p.create, _ = classOf(err)
 	}
 	for _, p := range all {
